@@ -1524,9 +1524,10 @@ func (m *Machine) bindHandlers(h *handler, opts ...BindOpts) (string, error) {
 		return "", nil
 	}
 	first := false
-	if !m.handlerLoopRunning.Load() {
+	// atomically, concurrent first binds would start 2 loops and the older one
+	// drops its calls
+	if m.handlerLoopRunning.CompareAndSwap(false, true) {
 		first = true
-		m.handlerLoopRunning.Store(true)
 
 		// start the handler loop
 		go m.handlerLoop()
